@@ -31,8 +31,10 @@ def run(model, name, bound=None, overrides=None, kinds=None, no_inline=(), selfo
     return res, ctx
 
 
-def spec(name, bound=None, overrides=None, kinds=None):
-    return run(spec_model(), name, bound, overrides=overrides, kinds=kinds)
+def spec(name, bound=None, overrides=None, kinds=None, repo=None):
+    ctx = SE.Ctx(spec_model(), overrides=overrides, kinds=kinds)
+    ctx.fallback = repo
+    return run(spec_model(), name, bound, ctx=ctx)
 
 
 # ------------------------------------------------------------------ standard abstraction points
@@ -109,3 +111,18 @@ def effective(model, callee, event, param):
 
 HEAVY = ('compute_shape_features', 'compute_burst_fraction', 'detect_bursts_amp', 'detect_bursts_cycles', 'drop_samples_df',
          'compute_amp_fraction', 'compute_amp_consistency', 'compute_period_consistency', 'compute_monotonicity')
+
+
+def make_object(ctx, model, cls, bound):
+    """construct a modelled object by evaluating its __init__ symbolically"""
+    oid = ctx.fresh('obj')
+    ctx.heap[oid] = {'cls': cls, 'attrs': {}}
+    init = model.lookup_method(cls, '__init__')
+    if init is None:
+        raise AnalysisError(f'{cls}.__init__ not found')
+    run(model, init.qual, dict(bound, self=('obj', oid)), ctx=ctx)
+    return ('obj', oid)
+
+
+def attrs(ctx, obj):
+    return ctx.heap[obj[1]]['attrs']
